@@ -4,6 +4,7 @@ import (
 	"context"
 	"encoding/json"
 	"fmt"
+	"runtime/debug"
 	"sort"
 	"sync"
 
@@ -147,7 +148,11 @@ func captureViews(ctx context.Context, src target.TargetSource) *Views {
 	safe := func(name string, f func() error) {
 		defer func() {
 			if x := recover(); x != nil {
-				v.Errors = append(v.Errors, fmt.Sprintf("%s: PANIC %v", name, x))
+				st := string(debug.Stack())
+				if len(st) > 3000 {
+					st = st[:3000]
+				}
+				v.Errors = append(v.Errors, fmt.Sprintf("%s: PANIC %v\n%s", name, x, st))
 			}
 		}()
 		if err := f(); err != nil {
@@ -216,6 +221,14 @@ func PayloadKey(upds []*sdcpb.Update, dels []*sdcpb.Path) string {
 		l = append(l, "U "+model.FromPb(u.GetPath()).String()+"="+model.TvString(u.GetValue()))
 	}
 	sort.Strings(l)
+	// a delete (or update) listed twice denotes the same change as listed once
+	u := l[:0]
+	for i, x := range l {
+		if i == 0 || x != l[i-1] {
+			u = append(u, x)
+		}
+	}
+	l = u
 	s := ""
 	for i, x := range l {
 		if i > 0 {
